@@ -5,7 +5,8 @@
 
 package crypto
 
-//@ uninterp CanonicalScalarKey(k Key) bool
+//@ -- the same predicate as CanonicalScalar of zz_contracts_c30_verif.go, stated on the key value
+//@ spec CanonicalScalarKey(k Key) bool = CanonicalScalar(seq(k))
 //@ uninterp ValidPoint(k Key) bool
 
 //@ -- CheckKey decodes the point and reports the error: total.
@@ -14,14 +15,10 @@ package crypto
 //@   ensures result <==> ValidPoint(k)
 
 //@ -- Public panics on a non-canonical scalar (SetCanonicalBytes error).
-//@ assume func (k Key) Public
-//@   panics when !CanonicalScalarKey(k)
-//@   modifies nothing
+//@ -- (Key).Public: assumed contract in zz_contracts_c30_verif.go (panics when the scalar is not canonical)
 
 //@ -- NewKeyFromSeed(64 bytes): SetUniformBytes never fails on 64 bytes and yields a reduced (canonical) scalar.
-//@ assume func (k Key) DeterministicHashDerive
-//@   modifies nothing
-//@   ensures CanonicalScalarKey(result)
+//@ -- (Key).DeterministicHashDerive: assumed contract in zz_contracts_c30_verif.go (result is a canonical scalar)
 
 //@ assume func (k Key) String
 //@   pure
@@ -36,16 +33,12 @@ package crypto
 //@ assume func (s Signature) String
 //@   pure
 
-//@ assume func (h Hash) ForNetwork
-//@   modifies nothing
+//@ -- (Hash).ForNetwork: verified contract in zz_contracts_c30_verif.go
 
-//@ assume func Sha256Hash(data)
-//@   modifies nothing
+//@ -- Sha256Hash: assumed contract in zz_contracts_c30_verif.go
 
 //@ -- Verify: SetUniformBytes on the 64-byte digest cannot fail; undecodable key / signature are reported as false. Total for a non-nil receiver.
-//@ assume func (publicKey *Key) Verify(message, sig)
-//@   requires publicKey != nil
-//@   modifies nothing
+//@ -- (*Key).Verify: assumed contract in zz_contracts_c30_verif.go (requires publicKey != nil; total)
 
 //@ -- BatchVerify: empty / unequal lengths / nil elements are rejected (false) before any dereference. Total.
 //@ assume func BatchVerify(msg, keys, sigs)
